@@ -70,3 +70,21 @@ func init() {
 		},
 	}
 }
+
+func init() {
+	properties["C15"] = &Property{
+		ID:    "C15",
+		Title: "The packet queue behaves as a byte FIFO across packet boundaries",
+		Funcs: []string{`^\(\*tds\.PacketQueue\)\.[A-Za-z0-9]+$`, `^tds\.(NewPacketQueue|NewPacket)$`},
+		Assumptions: []string{
+			"one goroutine per queue (the embedded mutex is not modelled)",
+			"a queue is used either under the read discipline ($readable) or the write discipline ($writable), never both",
+			"PacketQueue.packetSize is Conn.PacketSize (bound in NewChannel) and returns a value in 9..65535 (type invariant of Conn, see C08)",
+			"append never exceeds the maximal slice size (memory is finite)",
+		},
+		Notes: []string{
+			"abstract view: the BytesChannel ghosts of the queue object ($in/$r/$end for reads, $out/$w for writes) and Packet.$pos, the absolute stream offset of each packet",
+			"every read method is proved against the BytesChannel stream contract (little-endian composition of the typed reads included); AddPacket, DiscardUntilCurrentPosition, SetPosition, Reset preserve the representation invariant; discard keeps the read position and the unread bytes",
+		},
+	}
+}
